@@ -10,6 +10,7 @@ Line-protocol driver for the store snapshotting model (component `snapsm`), C04.
   snapend <outcome>             → installed | not-installed | nopending | fatal-exit   (Persist + Close / Release;
                                   fatal-exit: Sink.Close exited the process, which was then restarted)
   load <content> / boot <content> / install <content>   → ok     content = ids comma-separated, `e` empty
+  installcrash <content>         → ok | corrupt   (snapshot put into the store, process dies before fsmRestore, restart)
   reap                          → ok
   restart                       → ok | corrupt
   db                            → content of the applied database
@@ -73,6 +74,9 @@ def stepLine (d : DState) (line : String) : DState × String :=
       | none => (d, "bad-op")
     | "install", [c] => match contentTok c with
       | some c => run lvl (.install c)
+      | none => (d, "bad-op")
+    | "installcrash", [c] => match contentTok c with
+      | some c => run lvl (.installCrash c)
       | none => (d, "bad-op")
     | "reap", [] => run lvl .reap
     | "restart", [] => run lvl .restart
